@@ -9,6 +9,9 @@ import RV.Base.Proto
     relex T            -> integer | decimal | double | boolean | none   W3C Turtle token grammar
     ptoken K S         -> some T | none     `_literal_n3(use_plain=True)` text for kind K (none: external float formatting)
     plain K S T1 N1 [T2 N2]  -> plain T | quoted     `_literal_label`'s choice among candidates (token, normalised)
+  Terms of graphs: i<n> (IRI; i0 = rdf:first, i1 = rdf:rest, i2 = rdf:nil), l<n> (literal), b<n> (blank node).
+    vl H s p o s p o …       -> true | false | nofuel   `isValidList(H)` on the graph, nothing serialized yet
+    pre h1,h2,… s p o …      -> ok | bad                decidable `Pre`: may exactly these blank nodes go unlabelled?
 -/
 open RV RV.C03 RV.Proto
 
@@ -38,6 +41,23 @@ def pairs? : List String → Option (List (Str × Str))
     pure ((x, y) :: r)
   | _ => none
 
+def term? (w : String) : Option Term :=
+  match w.toList with
+  | 'i' :: r => (String.ofList r).toNat?.map Term.iri
+  | 'l' :: r => (String.ofList r).toNat?.map Term.lit
+  | 'b' :: r => (String.ofList r).toNat?.map (fun n => Term.bn (.orig n))
+  | _ => none
+
+def triples? : List String → Option Graph
+  | [] => some []
+  | a :: b :: c :: rest => do
+    let x ← term? a; let y ← term? b; let z ← term? c; let r ← triples? rest
+    pure ((x, y, z) :: r)
+  | _ => none
+
+def terms? (w : String) : Option (List Term) :=
+  if w = "-" then some [] else (w.splitOn ",").mapM term?
+
 def step (s : Unit) : List String → Unit × String
   | ["ntenc", a] => match cps? a with
     | some x => (s, showCps (ntQuoteEncode x)) | none => (s, "bad-op")
@@ -55,6 +75,13 @@ def step (s : Unit) : List String → Unit × String
     | some k, some x, some ps =>
       (s, match plainChoice k x ps with | some t => "plain " ++ showCps t | none => "quoted")
     | _, _, _ => (s, "bad-op")
+  | "vl" :: h :: rest => match term? h, triples? rest with
+    | some h, some g =>
+      (s, match isValidList g [] h with | some true => "true" | some false => "false" | none => "nofuel")
+    | _, _ => (s, "bad-op")
+  | "pre" :: hs :: rest => match terms? hs, triples? rest with
+    | some hs, some g => (s, if preCheck g hs then "ok" else "bad")
+    | _, _ => (s, "bad-op")
   | _ => (s, "bad-op")
 
 def main : IO Unit := RV.Proto.run step ()
